@@ -1,8 +1,7 @@
 (* C08 -- row equivariance and independence from irrelevant frame structure.
    The model's frames are association lists of columns: the pandas index is not an input at all.
-   Not proved: row permutation for designs WITH group-specific terms (statement kept as
-   Prediction.perm_rows_full_statement); decided by the correspondence and the oracle. *)
-From Verif Require Import Base Tokens Algebra Frame Eval Design FrameStructure PermKernel Prediction.
+   Row permutation is proved for whole designs, group-specific terms and bs / poly included. *)
+From Verif Require Import Base Tokens Algebra Frame Eval Design FrameStructure PermKernel Prediction PredictionGroups PermSpline.
 From Coq Require Import Permutation.
 From Verif Require Tie.
 Local Close Scope Qc_scope.
@@ -45,6 +44,41 @@ Theorem C08_perm_rows :
       option_map dt_labels (ds_response ds') = option_map dt_labels (ds_response ds).
 Proof. exact perm_rows. Qed.
 
+(* the same for whole designs with group-specific terms and with poly / bs among the transforms:
+   training on the permuted frame gives the permuted design and changes nothing else *)
+Theorem C08_perm_rows_groups :
+  forall idx D ex sq m ds,
+    frame_wf D -> frame_unordered D -> frame_rows D <> 0%nat ->
+    (forall k w, assoc k ex = Some w -> is_scalar w = true) ->
+    Permutation idx (seq 0 (frame_rows D)) ->
+    (forall t, In (CT t) (commons m) -> Forall (comp_safe ["poly"%string; "bs"%string]) t) ->
+    (forall t, resp m = Some t -> Forall (comp_safe ["poly"%string; "bs"%string]) t) ->
+    (forall g, In g (groups m) -> gsafe ["poly"%string; "bs"%string] g) ->
+    eval_model (DCtx ex sq) D m = Ok ds ->
+    eval_model (DCtx ex sq) (frame_pick idx D) m = Ok (design_sel_groups (sel_pick idx) (frame_rows D) ds) /\
+    ds_nrows (design_sel_groups (sel_pick idx) (frame_rows D) ds) = frame_rows D.
+Proof. exact perm_rows_groups_bs. Qed.
+
+(* what [design_sel_groups] is: every row matrix permuted, everything else untouched *)
+Theorem C08_permuted_design_spec :
+  forall idx n ds,
+    let ds' := design_sel_groups (sel_pick idx) n ds in
+    map dt_name (ds_common ds') = map dt_name (ds_common ds) /\
+    map dt_kind (ds_common ds') = map dt_kind (ds_common ds) /\
+    map dt_labels (ds_common ds') = map dt_labels (ds_common ds) /\
+    map dt_rows (ds_common ds') = map (pick idx) (map dt_rows (ds_common ds)) /\
+    map dg_name (ds_group ds') = map dg_name (ds_group ds) /\
+    map dg_kind (ds_group ds') = map dg_kind (ds_group ds) /\
+    map dg_groups (ds_group ds') = map dg_groups (ds_group ds) /\
+    map dg_labels (ds_group ds') = map dg_labels (ds_group ds) /\
+    map dg_factor_name (ds_group ds') = map dg_factor_name (ds_group ds) /\
+    map dg_rows (ds_group ds') = map (pick idx) (map dg_rows (ds_group ds)) /\
+    map (fun g => map dc_levels (dg_factor g)) (ds_group ds') = map (fun g => map dc_levels (dg_factor g)) (ds_group ds) /\
+    map (fun g => map dc_contrast (dg_factor g)) (ds_group ds') = map (fun g => map dc_contrast (dg_factor g)) (ds_group ds) /\
+    option_map dt_rows (ds_response ds') = option_map (pick idx) (option_map dt_rows (ds_response ds)) /\
+    option_map dt_labels (ds_response ds') = option_map dt_labels (ds_response ds).
+Proof. exact design_sel_groups_spec. Qed.
+
 (* the kernels a fit uses are permutation invariant *)
 Theorem C08_mean_perm : forall l l', Permutation l l' -> mean l = mean l'.
 Proof. exact mean_perm. Qed.
@@ -53,3 +87,4 @@ Proof. exact sort_levels_perm. Qed.
 
 Print Assumptions C08_design_frame_agree.
 Print Assumptions C08_perm_rows.
+Print Assumptions C08_perm_rows_groups.
